@@ -34,7 +34,8 @@ M = [
  ("C16-loop-bound", ["C16"], "src/Z/FreeSpaceCSR.cpp", "for (size_t i=0; i<=n/2; i++) {", "for (size_t i=0; i<n; i++) {"),
  ("C16-wall-sign", ["C16"], "src/Z/ResistiveWall.cpp", ") * impedance_t(1,-1);", ") * impedance_t(1,1);"),
  ("C16-factory-assign", ["C16"], "src/Z/ImpedanceFactory.cpp", "*rv += CollimatorImpedance(nfreqs,fmax,radius,inner_coll_radius);", "*rv = CollimatorImpedance(nfreqs,fmax,radius,inner_coll_radius);"),
- ("C18-conditional-copy", ["C18"], "src/PS/ElectricField.cpp", "            std::copy_n(bp.origin(),PhaseSpace::nx,_bp_padded);\n\n            //FFT charge density", "            if (n == 0) std::copy_n(bp.origin(),PhaseSpace::nx,_bp_padded);\n\n            //FFT charge density"),
+ ("C07-conditional-copy", ["C07"], "src/PS/ElectricField.cpp", "            std::copy_n(bp.origin(),PhaseSpace::nx,_bp_padded);\n\n            //FFT charge density", "            if (n == 0) std::copy_n(bp.origin(),PhaseSpace::nx,_bp_padded);\n\n            //FFT charge density"),
+ ("C18-intensity-accumulates", ["C18"], "src/PS/ElectricField.cpp", "        _csrintensity[n] = 0;\n", ""),
  ("C18-no-clear", ["C18"], "src/PS/ElectricField.cpp", "    std::fill_n(_bp_padded,_nmax,static_cast<integral_t>(0));\n    for (uint32_t b=0; b<PhaseSpace::nb; b++) {", "    for (uint32_t b=0; b<PhaseSpace::nb; b++) {"),
  ("C19-records-dropped", ["C19"], "src/SM/DynamicRFKickMap.cpp", "    _past_modulation.emplace_back(std::move(_next_modulation.front()));", "    if (_past_modulation.size()<3) _past_modulation.emplace_back(std::move(_next_modulation.front()));"),
  ("C19-pop-before-use", ["C19"], "src/SM/DynamicRFKickMap.cpp", "void vfps::DynamicRFKickMap::apply() {\n    _calcKick();", "void vfps::DynamicRFKickMap::apply() {\n    if (_next_modulation.size() > 1) { _past_modulation.emplace_back(_next_modulation.front()); _next_modulation.pop(); }\n    _calcKick();"),
